@@ -35,7 +35,8 @@ let path_op mode toks =
       emit (Printf.sprintf "%s %s" (hx r) (hx (simplifyPath (rel_joined f r))))
   | `Spec, ["rel"; f; t] ->
       let f = bytes_of_hex f and t = bytes_of_hex t in
-      if rel_hyp f t then emit (Printf.sprintf "? %s" (hx (canon t))) else emit "? ?"
+      (* whenever a lexical answer exists (same kind, `from` keeps no more leading ".." than `to`): from + answer denotes `to` *)
+      if rel_hyp_wide f t then emit (Printf.sprintf "? %s" (hx (canon t))) else emit "? ?"
   | _ -> failwith ("bad op: " ^ String.concat " " toks)
 
 (* ---- part B ------------------------------------------------------------------------------ *)
@@ -200,13 +201,18 @@ let fs_op (mode : [`Model | `Spec]) (st : state) toks : state =
      injected outcome reached the library, and otherwise judges this operation and the rest of the case by
      the order-independent reading of the text (fs_text_judge).  Which call fails and what is left behind
      then is the model's prediction only (Model mode, compared for correspondence). *)
-  let fin ?(pre = []) ?(post = []) ?(cond = false) st' res =
+  (* ~indep:true (Spec mode only): the line was computed from the Coq Spec (FsSpec / FsListSpec / the kernel look-up), not
+     by running the Model.  Every other Spec-mode line is the Model's answer and carries the token M: the judge does not
+     count a difference there as a failure of the property (the property oracle for these operations is the reading of the
+     text in checks/C19.py fs_text_judge); it stops consulting the Spec for the rest of the case, and the difference is
+     reported as model/implementation correspondence. *)
+  let fin ?(pre = []) ?(post = []) ?(cond = false) ?(indep = false) st' res =
     (match mode with
      | `Model ->
          let ps = pre @ List.map (fun (k, follow, path) -> k ^ "=" ^ probe st' follow path) post in
          emit (Printf.sprintf "%s | %s | %s | %s" res (snapshot st'.root) (handles_text st')
                  (if ps = [] then "-" else String.concat " " ps))
-     | `Spec -> emit (Printf.sprintf "%s%s | %s" (if cond then "F " else "") res (snapshot st'.root)));
+     | `Spec -> emit (Printf.sprintf "%s%s%s | %s" (if indep then "" else "M ") (if cond then "F " else "") res (snapshot st'.root)));
     st' in
   let e01 e = match e with None -> "1" | Some _ -> "0" in
   let p = bytes_of_hex in
@@ -224,7 +230,7 @@ let fs_op (mode : [`Model | `Spec]) (st : state) toks : state =
   | ["open"; h; a; fl] ->
       let fl = int_of_string fl in
       let (s, b) = f_open st (nat h) (p a) (fl land 1 <> 0) (fl land 2 <> 0) (fl land 4 <> 0) (fl land 8 <> 0) in
-      fin ~post:["d", true, p a] s (b01 b)
+      fin ~pre:["p=" ^ place st (p a)] ~post:["d", true, p a] s (b01 b)
   | ["close"; h] -> fin (f_close st (nat h)) "-"
   | [("write" | "read" | "readall" | "seek" | "size" | "flush"); h] | [("write" | "read" | "readall" | "seek" | "size" | "writebig"); h; _]
   | [("write" | "read" | "readall" | "seek" | "size" | "writebig"); h; _; _]
@@ -251,9 +257,9 @@ let fs_op (mode : [`Model | `Spec]) (st : state) toks : state =
            (match resolve st true (p a) with
             | WAt (d, nm, Some SFile) ->
                 (match get st.root (d @ [nm]) with
-                 | Some (NFile c) -> fin st ("1 " ^ render c)
-                 | _ -> fin st "0 -")
-            | _ -> fin st "0 -"))
+                 | Some (NFile c) -> fin ~indep:true st ("1 " ^ render c)
+                 | _ -> fin ~indep:true st "0 -")
+            | _ -> fin ~indep:true st "0 -"))
   | ["fexists"; a] -> fin ~pre:[now "s" false (p a)] st (b01 (f_exists st (p a)))
   | ["cwd"] -> fin st (hx (cwd_text st))
   | ["abspath"; a] ->
@@ -265,7 +271,7 @@ let fs_op (mode : [`Model | `Spec]) (st : state) toks : state =
                         = (match resolve st fl (p a) with WErr _ -> 0 | WAt (_, _, None) -> 0 | _ -> 1)) then "1" else "0" in
       (match mode with
        | `Model -> fin st (Printf.sprintf "%s %s %s" (hx r) (same true) (same false))
-       | `Spec -> fin st (Printf.sprintf "%s %s %s" (hx r) (if p a = [] then "?" else "1") (if p a = [] then "?" else "1")))
+       | `Spec -> fin ~indep:true st (Printf.sprintf "%s %s %s" (hx r) (if p a = [] then "?" else "1") (if p a = [] then "?" else "1")))
   | ["chdir"; a] -> let (s, b) = d_change st (p a) in fin ~pre:[now "s" true (p a)] s (b01 b)
   | ["dlist"; a; pat; only] ->
       let pre = [now "s" true (open_text (p a))] in
@@ -276,8 +282,8 @@ let fs_op (mode : [`Model | `Spec]) (st : state) toks : state =
            else let (_, t) = read_all_text st cur in fin ~pre st ("1 " ^ t)
        | `Spec ->
            (match spec_list st (p a) (p pat) (only = "1") with
-            | None -> fin st "0"
-            | Some l -> fin st (Printf.sprintf "1 %s end=0" (entries_text l))))
+            | None -> fin ~indep:true st "0"
+            | Some l -> fin ~indep:true st (Printf.sprintf "1 %s end=0" (entries_text l))))
   | ["dopen"; k; a; pat; only] ->
       let k = (int_of_string k) land 3 in
       let (cur, ok) = d_open st dirs.(k) (p a) (p pat) (only = "1") in
@@ -295,16 +301,16 @@ let fs_op (mode : [`Model | `Spec]) (st : state) toks : state =
       let armed = (o <> None) in
       let o = (match mode with `Spec -> None | `Model -> o) in      (* the Spec line is the fault-free one (token F) *)
       let (s, b) = d_purge_o (unlink_fuel st) o st (p a) (r = "1") in
-      let s = (match mode, o, b, plain_class st (p a) with
+      let (s, indep) = (match mode, o, b, plain_class st (p a) with
                | `Spec, None, true, Some (names, c) ->
                    (* the text, for a relative path of plain names: the directory is cut out, and so is every
                       ancestor below the current directory that this leaves empty *)
-                   { s with root = purged st.root st.cwd names c }
-               | _ -> s) in
+                   ({ s with root = purged st.root st.cwd names c }, true)
+               | _ -> (s, false)) in
       (* the oracle after the operation: what d_purge_o does, call by call *)
       let o' = (let ((s1, ok), o1) = d_unlink_o (unlink_fuel st) o st (p a) (r = "1") in
                 if ok then snd (purge_up_o (S (length (p a))) o1 s1 (getDirectoryName (p a))) else o1) in
-      fin ~cond:armed ~pre:[now "s" false (p a); "ff=" ^ b01 (fired o o'); "?"] s (b01 b ^ " " ^ b01 (d_exists s (p a)))
+      fin ~cond:armed ~indep ~pre:[now "s" false (p a); "ff=" ^ b01 (fired o o'); "?"] s (b01 b ^ " " ^ b01 (d_exists s (p a)))
   | ["funlink"; a] -> let (s, b) = f_unlink st (p a) in fin ~pre:[now "s" false (p a)] s (b01 b)
   | ["symlink"; t; a] -> let (s, b) = f_symlink st (p t) (p a) in fin ~post:["d", false, p a] s (b01 b)
   | ["rename"; a; b; fie] ->
